@@ -171,6 +171,7 @@ struct RunResult {
         EvHash ev;       // full event log hash (schedule + observables)
         EvHash obs;      // observable history only (C20)
         std::vector<uint64_t> obs_trace; // per-event observable hashes (for first-diff)
+        std::vector<uint32_t> obs_tags;  // per-event tags (which observable)
         uint64_t steps = 0;
         Coverage cov;
         std::string sample; // short human-readable rendering of the case (filled on demand)
